@@ -734,6 +734,41 @@ def build(ov):
     return b
 
 
+def _gen_fn_extent(S, pos):
+    """In GENERATED text a fn header may contain braces (`match r { .. }`, `if c { a } else { b }` inside
+    requires/ensures). The body is the last top-level brace block of the item: walk over brace blocks and
+    continue while what follows a block still belongs to the spec header."""
+    src, mask = S.src, S.mask
+    n = len(src)
+    j = pos
+    pd = 0
+    start = src.rfind('\n', 0, pos) + 1
+    while True:
+        while j < n:
+            if mask[j]:
+                c = src[j]
+                if c in '([':
+                    pd += 1
+                elif c in ')]':
+                    pd -= 1
+                elif c == '{' and pd == 0:
+                    break
+                elif c == ';' and pd == 0:
+                    return start, j + 1, None
+            j += 1
+        if j >= n:
+            raise CutError('no body')
+        close = match_close(src, mask, j)
+        k = close + 1
+        while k < n and (src[k].isspace() or not mask[k]):
+            k += 1
+        nxt = src[k:k + 4]
+        if k < n and (src[k] in ',&|=.+-<>?)*/' or nxt.startswith('else') or nxt.startswith('as ')):
+            j = k
+            continue
+        return start, close + 1, j
+
+
 def _scan_fn_ranges(text):
     S = Source('<generated>', text)
     res = []
@@ -742,7 +777,7 @@ def _scan_fn_ranges(text):
         if not S.mask[pos]:
             continue
         try:
-            st, en, body = S._cut_braced(pos, m.group(1))
+            st, en, body = _gen_fn_extent(S, pos)
         except CutError:
             continue
         res.append((m.group(1), text.count('\n', 0, pos) + 1, text.count('\n', 0, en) + 1, body))
@@ -902,7 +937,7 @@ VERIF_MSGS = (
     'possible division by zero', 'possible bit shift underflow/overflow', 'loop invariant',
     'recommendation not met', 'possible', 'unreachable', 'index out of bounds',
     'could not prove termination', 'termination', 'assert_by', 'failed', 'not satisfied',
-    'may panic', 'loop ensures', 'cannot show', 'constructed value may fail',
+    'may panic', 'loop ensures', 'cannot show', 'constructed value may fail', 'precondition not met', 'not met',
 )
 
 
